@@ -1,4 +1,4 @@
-import Lemmas.NumFrame
+import Lemmas.NumDest
 /-! Frame lemmas for statements of the fragment of `compile_correct_partial`: `send` from a source
 (account | max | in-order, any overdraft clause) to an account, `save`, `set_tx_meta`, `set_account_meta`,
 `print`, `fail`. -/
@@ -6,31 +6,6 @@ namespace Num
 open VM
 
 variable {E : List (Acct × Asset)}
-
-/-- replace stack, amounts and postings -/
-def VM.Machine.upd3 (m : Machine) (stack : List BVal) (ks : List (Acct × Asset)) (b : Bal) (ps : List Posting) : Machine :=
-  { m with stack := stack, balances := ⟨m.balances.accts, ks, b⟩, postings := ps }
-
-theorem upd_eq_upd3 (m : Machine) (S : List BVal) (ks : List (Acct × Asset)) (b : Bal) : m.upd S ks b = m.upd3 S ks b m.postings := rfl
-
-theorem credit_eq {A : List Acct} {ks : List (Acct × Asset)} {b : Bal} (hok : BalOK A E b) (d : Acct) (s : Asset) (f : Parts) :
-    BalOK A E (Num.credit b d s f) ∧ ∃ ks', VM.credit ⟨A, ks, b⟩ d s f = ⟨A, ks', Num.credit b d s f⟩ := by
-  unfold Num.credit VM.credit Balances.hasAcct
-  by_cases hw : d = "world"
-  · simp only [hw, if_true]; exact ⟨hok, ks, rfl⟩
-  · simp only [hw, if_false]
-    cases hg : b.get d s with
-    | none =>
-      simp only
-      refine ⟨hok, ks, ?_⟩
-      split <;> rfl
-    | some t =>
-      have ha : A.contains d = true := hok.1 d s (by simp [hg])
-      simp only [ha, Bool.not_true, Bool.false_eq_true, if_false]
-      exact ⟨hok.upd ha _ _, _, rfl⟩
-
-theorem step_fundingSum (V : List BVal) (m : Machine) (S : List BVal) (ks : List (Acct × Asset)) (b : Bal) (a : Asset) (p : Parts) :
-    step V .fundingSum (m.upd (.funding a p :: S) ks b) = .ok (m.upd (.mon a (total p) :: .funding a p :: S) ks b) := rfl
 
 /-- `TakeFromSource`: from `mon :: funding :: S` to `taken :: S` -/
 theorem takeFromSource_ok {R : List Resource} {V : List BVal} {env : VEnv} (cx : Ctx R V env) {st st' : CState} {c : Code}
@@ -232,14 +207,10 @@ theorem evalMon_leftAsset {env : VEnv} {e : Expr} {a s : Asset} {n : Int} (h : e
     simp [leftAsset, evalMon, hk] at hl
     exact hl.symm
 
-def Dest.fragAcct : Dest → Bool
-  | .acct e => e.noPortion
-  | _ => false
-
 /-- the statement fragment of `compile_correct_partial` -/
 def Stmt.frag : Stmt → Bool
-  | .send (.mon e) (.src s) d => e.noPortion && s.frag && d.fragAcct
-  | .send (.all ae) (.src s) d => ae.noPortion && s.frag && d.fragAcct
+  | .send (.mon e) (.src s) d => e.noPortion && s.frag && d.frag
+  | .send (.all ae) (.src s) d => ae.noPortion && s.frag && d.frag
   | .send _ (.allot _) _ => false
   | .saveMon e acc => e.noPortion && acc.noPortion
   | .saveAll ae acc => ae.noPortion && acc.noPortion
@@ -264,12 +235,12 @@ def EntOK (V : List BVal) (nb : List (Addr × List Addr)) (A : List Acct) (E : L
   ∀ a x, InNeeded nb a x → ∀ acct s, V[a]? = some (.acct acct) → (∃ v, V[x]? = some v ∧ assetOf v = some s) →
     A.contains acct = true ∧ (acct, s) ∈ E
 
-/-- `VisitDestination` of an account: from `funding :: S`, send everything and repay what is left -/
-theorem destAcct_ok {R : List Resource} {V : List BVal} {env : VEnv} (cx : Ctx R V env) {st st' : CState} {e : Expr} {c : Code}
-    (hv : visitDestination st (.acct e) = .ok (c, st')) (hsub : Sub st' R) (hidx : VarIdxOK st) (hnp : e.noPortion = true)
+/-- `VisitDestination`: from `funding :: S`, run the destination and repay what it did not send -/
+theorem destination_ok {R : List Resource} {V : List BVal} {env : VEnv} (cx : Ctx R V env) {st st' : CState} {d : Dest} {c : Code}
+    (hv : visitDestination st d = .ok (c, st')) (hsub : Sub st' R) (hidx : VarIdxOK st) (hf : d.frag = true)
     (m : Machine) (S : List BVal) (ks : List (Acct × Asset)) (b : Bal) (hok : BalOK m.balances.accts E b)
     (f : Fund) (hparts : PartsIn m.balances.accts f.parts) :
-    match finishSend env (.acct e) f ⟨b, m.postings⟩ with
+    match finishSend env d f ⟨b, m.postings⟩ with
     | .error er => exec V c (m.upd (.funding f.asset f.parts :: S) ks b) = .error er
     | .ok st2 => BalOK m.balances.accts E st2.bal ∧
         ∃ ks', exec V c (m.upd (.funding f.asset f.parts :: S) ks b) = .ok (m.upd3 S ks' st2.bal st2.postings) := by
@@ -279,38 +250,20 @@ theorem destAcct_ok {R : List Resource} {V : List BVal} {env : VEnv} (cx : Ctx R
   · rename_i c1 st1 h1
     simp only [Except.ok.injEq, Prod.mk.injEq] at hv
     obtain ⟨rfl, rfl⟩ := hv
-    simp only [visitDest] at h1
-    split at h1
-    · cases h1
-    · rename_i o ho
-      split at h1
-      · cases h1
-      · rename_i hty
-        simp only [Except.ok.injEq, Prod.mk.injEq] at h1
-        obtain ⟨rfl, rfl⟩ := h1
-        have hacc := acctExpr_ok cx ho hsub hidx hnp (Classical.not_not.mp hty)
-        simp only [finishSend, evalDest]
-        cases ht : Num.take f.parts (total f.parts) with
-        | none =>
-          simp only
-          simp [exec_append, exec, step_fundingSum, step_take, ht]
-        | some r =>
-          obtain ⟨taken, rest⟩ := r
-          simp only
-          obtain ⟨hp1, hp2⟩ := take_partsIn hparts ht
-          cases hx : evalAcct env e with
-          | error er =>
-            rw [hx] at hacc
-            simp [exec_append, exec, step_fundingSum, step_take, ht, hacc _]
-          | ok d =>
-            rw [hx] at hacc
-            obtain ⟨hex, _⟩ := hacc
-            simp only [emit]
-            obtain ⟨hokc, ks1, hcr⟩ := credit_eq (ks := ks) hok d f.asset taken
-            obtain ⟨hokr, ks2, hrp⟩ := repay_eq (ks := ks1) hokc f.asset hp2
-            refine ⟨hokr, ks2, ?_⟩
-            simp only [exec_append, exec, step_fundingSum, step_take, ht, ne_eq, not_true_eq_false, if_false, hex, push_upd]
-            simp [step, popAcct, popFunding, Machine.upd, Machine.upd3, hcr, hrp]
+    have hD := dest_ok (E := E) cx h1 hsub hidx hf m S ks b f hok hparts
+    simp only [finishSend]
+    cases hev : evalDest env d f ⟨b, m.postings⟩ with
+    | error er =>
+      rw [hev] at hD
+      simp only [exec_append, hD]
+    | ok r =>
+      obtain ⟨rest, st2⟩ := r
+      rw [hev] at hD
+      obtain ⟨hok2, hparts2, ks2, hex2⟩ := hD
+      obtain ⟨hok3, ks3, hrp⟩ := step_repay V (m.setPost st2.postings) S ks2 st2.bal hok2 rest.asset hparts2
+      refine ⟨hok3, ks3, ?_⟩
+      simp only [exec_append, hex2, exec, hrp]
+      rfl
 
 /-- the value of a typed expression has the wanted type -/
 theorem typed_val {R : List Resource} {V : List BVal} {env : VEnv} (cx : Ctx R V env) {st st' : CState} {want : BTy} {e : Expr} {a : Addr} {c : Code}
@@ -511,16 +464,12 @@ theorem stmt_ok {R : List Resource} {V : List BVal} {env : VEnv} (cx : Ctx R V e
         have hsub2 : Sub st2 R := hsub
         have hed := visitDestination_ext hdst
         have hes := visitSendSource_ext hsrc
-        cases d with
-        | inorder _ _ => cases amt <;> cases src <;> simp [Stmt.frag, Dest.fragAcct] at hf
-        | allot _ => cases amt <;> cases src <;> simp [Stmt.frag, Dest.fragAcct] at hf
-        | acct e' =>
-          cases src with
+        · cases src with
           | allot items => cases amt <;> simp [Stmt.frag] at hf
           | src sc =>
             cases amt with
             | mon e =>
-              simp only [Stmt.frag, Dest.fragAcct, Bool.and_eq_true] at hf
+              simp only [Stmt.frag, Bool.and_eq_true] at hf
               obtain ⟨⟨hfe, hfs⟩, hfd⟩ := hf
               simp only [visitSendSource] at hsrc
               split at hsrc
@@ -601,10 +550,10 @@ theorem stmt_ok {R : List Resource} {V : List BVal} {env : VEnv} (cx : Ctx R V e
                             obtain ⟨taken, b2⟩ := r
                             rw [htk] at hT
                             obtain ⟨hok2, hparts2, ks2, hex2⟩ := hT
-                            have hD := destAcct_ok (E := E) cx hdst hsub2 hidxT hfd (⟨[], ⟨accts, keys, F.st.bal⟩, F.st.postings, F.txMeta.map (fun kv => (kv.1, BVal.ofVal kv.2)), F.acctMeta.map (fun x => (x.1, x.2.1, BVal.ofVal x.2.2)), F.prints.map BVal.ofVal⟩ : Machine)
+                            have hD := destination_ok (E := E) cx hdst hsub2 hidxT hfd (⟨[], ⟨accts, keys, F.st.bal⟩, F.st.postings, F.txMeta.map (fun kv => (kv.1, BVal.ofVal kv.2)), F.acctMeta.map (fun x => (x.1, x.2.1, BVal.ofVal x.2.2)), F.prints.map BVal.ofVal⟩ : Machine)
                               [] ks2 b2 hok2 taken hparts2
                             simp only
-                            cases hfin : finishSend env (.acct e') taken ⟨b2, F.st.postings⟩ with
+                            cases hfin : finishSend env d taken ⟨b2, F.st.postings⟩ with
                             | error er =>
                               rw [hfin] at hD
                               simp only [exec_append, hex1', hX.2, push_upd, ofVal_mon, hex2, hD]
@@ -614,7 +563,7 @@ theorem stmt_ok {R : List Resource} {V : List BVal} {env : VEnv} (cx : Ctx R V e
                               refine ⟨_, by first | (simp only [exec_append, hex1', hX.2, push_upd, ofVal_mon, hex2, hex3]; done) | (simp only [exec_append, hex1', hX.2, push_upd, ofVal_mon, hex2, hex3]; rfl), ?_⟩
                               exact ⟨rfl, rfl, rfl, rfl, rfl, rfl, rfl, hok3⟩
             | all ae =>
-              simp only [Stmt.frag, Dest.fragAcct, Bool.and_eq_true] at hf
+              simp only [Stmt.frag, Bool.and_eq_true] at hf
               obtain ⟨⟨hfe, hfs⟩, hfd⟩ := hf
               simp only [visitSendSource] at hsrc
               split at hsrc
@@ -646,10 +595,10 @@ theorem stmt_ok {R : List Resource} {V : List BVal} {env : VEnv} (cx : Ctx R V e
                     rw [hsrcv] at hs1
                     obtain ⟨hfb, hok1, hparts, ks1, hex1⟩ := hs1
                     have hex1' : exec V so.code (⟨[], ⟨accts, keys, F.st.bal⟩, F.st.postings, F.txMeta.map (fun kv => (kv.1, BVal.ofVal kv.2)), F.acctMeta.map (fun x => (x.1, x.2.1, BVal.ofVal x.2.2)), F.prints.map BVal.ofVal⟩ : Machine) = _ := hex1
-                    have hD := destAcct_ok (E := E) cx hdst hsub2 hidxT hfd (⟨[], ⟨accts, keys, F.st.bal⟩, F.st.postings, F.txMeta.map (fun kv => (kv.1, BVal.ofVal kv.2)), F.acctMeta.map (fun x => (x.1, x.2.1, BVal.ofVal x.2.2)), F.prints.map BVal.ofVal⟩ : Machine)
+                    have hD := destination_ok (E := E) cx hdst hsub2 hidxT hfd (⟨[], ⟨accts, keys, F.st.bal⟩, F.st.postings, F.txMeta.map (fun kv => (kv.1, BVal.ofVal kv.2)), F.acctMeta.map (fun x => (x.1, x.2.1, BVal.ofVal x.2.2)), F.prints.map BVal.ofVal⟩ : Machine)
                       [] ks1 b1 hok1 f hparts
                     simp only
-                    cases hfin : finishSend env (.acct e') f ⟨b1, F.st.postings⟩ with
+                    cases hfin : finishSend env d f ⟨b1, F.st.postings⟩ with
                     | error er =>
                       rw [hfin] at hD
                       simp only [exec_append, hex1', hD]
